@@ -49,7 +49,7 @@ def gen_net(rng, tier):
         m = dict((f, NAMES[f % len(NAMES)] + (str(f) if f >= len(NAMES) else '')) for f in net['flows'])
         net['flows'] = [m[f] for f in net['flows']]
         net['table'] = [[m[c], v] for c, v in net['table']]
-        net['workload'] = [[t, m[f], sz] for t, f, sz in net['workload']]
+        net['workload'] = [[x[0], m[x[1]]] + list(x[2:]) for x in net['workload']]
     ts = sorted(set(x[0] for x in net['workload']))
     plan = []
     cand = [t for t in ts if t > 0]
